@@ -282,6 +282,8 @@ def signature(state, rec, outcome) -> dict:
         shape = "live-missing"
     elif live == []:
         shape = "live-empty"
+    elif any(r[0] == -1 for r in live):
+        shape = "live-zero-filled"
     elif all(r[0] >= 1 for r in live) and len(live) == 1 and live[0][1] == 1:
         shape = "live-prefix-of-new-data"
     else:
